@@ -680,7 +680,10 @@ def main(argv=None):
             except Exception as e:
                 br = {"error": repr(e)}
             bounded_res.append({"name": name, "bound": bound, "result": br, "label": "bounded (not counted as proved)"})
-            for vio in (br or {}).get("violations", []):
+            if not isinstance(br, dict) or "error" in br or "violations" not in br:
+                # a stand-in that did not run to the end has decided nothing: undecided, never silently passed
+                undecided.append((f"bounded:{name}", "the bounded stand-in did not complete: " + str((br or {}).get("error") if isinstance(br, dict) else br)[-300:].replace("\n", " | ")))
+            for vio in (br or {}).get("violations", []) if isinstance(br, dict) else []:
                 kf = [k for k in known["findings"] if k["property"] == pid and k["obligation"] == f"bounded:{name}" and k.get("signature") == vio.get("signature")]
                 if kf:
                     known_seen.append((f"bounded:{name}", kf[0]))
